@@ -133,6 +133,12 @@ def handleGraph (req : Json) : Except String Json := do
     | some (h1, y) =>
       let h2 := applyEdit h1 (addClassEdit h1 holder y)
       pure (Json.mkObj [("ok", true), ("result", shapeJson h2 h.length y), ("written", natsJson (writtenOld h h2))])
+  | "graph.removeclass" => do
+    let holder ← req.getObjValAs? Nat "holder"
+    let name ← req.getObjValAs? String "name"
+    let registered ← req.getObjValAs? Bool "registered"
+    let h2 := applyEdit h (removeClassEdit h holder name registered)
+    pure (Json.mkObj [("ok", true), ("result", Json.str "done"), ("written", natsJson (writtenOld h h2))])
   | "graph.flatten" => do
     let root ← req.getObjValAs? Nat "root"
     let path ← getStrs req "path"
